@@ -131,6 +131,12 @@ def _register_encode_glue():
             # an instruction with EXTENDED_ARG prefixes as the LAST instruction: every one of its code units, the opcode's included, has its line
             wide = (Instruction(opn("hasconst"), Constant(1), line_number=7), Instruction("CALL_FUNCTION" if "CALL_FUNCTION" in T["opmap"] else opn("hasname"), 70000, line_number=9))
             code3, lm3, _, _, _, _ = f((wide,), (), (), None)
+            wide_op = T["opmap"]["CALL_FUNCTION" if "CALL_FUNCTION" in T["opmap"] else opn("hasname")]
+            ctx.prove("post.prefix_bytes_of_a_three_unit_operand_are_emitted_most_significant_first(70000 = 0x01 0x11 0x70)",
+                      z3.BoolVal(list(code3[2:]) == [ext, 0x01, ext, 0x11, wide_op, 0x70]), detail=repr(list(code3)))
+            four = (Instruction("CALL_FUNCTION" if "CALL_FUNCTION" in T["opmap"] else opn("hasname"), 0x12345678, line_number=1),)
+            code4b = f((four,), (), (), None)[0]
+            ctx.prove("post.prefix_bytes_of_a_four_unit_operand_are_emitted_most_significant_first", z3.BoolVal(list(code4b) == [ext, 0x12, ext, 0x34, ext, 0x56, wide_op, 0x78]), detail=repr(list(code4b)))
             ctx.prove("post.every_unit_of_a_prefixed_last_instruction_has_its_line(C10: table covers the whole code)",
                       z3.BoolVal(len(code3) == 8 and lm3.offset_to_line == {0: 7, 2: 9, 4: 9, 6: 9}), detail=repr((len(code3), lm3.offset_to_line)))
         harness("blocks.blocks_to_bytes.table_seeding[%s]" % kind, props=["C01", "C03", "C05", "C04", "C10", "C06"], functions=["code_data._blocks.blocks_to_bytes", "code_data._args.args_to_varnames"],
